@@ -122,6 +122,9 @@ class TierHistory:
         if self.obs:
             self.obs.before(op, recv, args, self.pool)
         res, exc = None, None
+        self.nrun = getattr(self, "nrun", 0) + 1
+        if self.nrun % 13 == 0:  # mode names as equal-but-not-identical strings (see checks.common.fresh_strings)
+            args = tuple((x + "_")[:-1] if isinstance(x, str) and 1 < len(x) <= 24 else x for x in args)
         try:
             res = fn(*args)
         except Exception as e:
